@@ -1,4 +1,5 @@
 import ObiVerif.Model.SeqOps
+import ObiVerif.Model.SeqHeap
 import ObiVerif.Driver.Util
 /-! line protocol for C07 -/
 namespace ObiVerif.Driver.C07
@@ -48,8 +49,78 @@ def insByName (p : String × Obj) : Store → Store
   | [] => [p]
   | x :: xs => if p.1 ≤ x.1 then p :: x :: xs else x :: insByName p xs
 
+/-! ### heap histories (`Model/SeqHeap.lean`) -/
+
+open ObiVerif.SeqHeap in
+def parseHOp (op : String) : Option HOp :=
+  match op.splitOn ":" with
+  | ["new", a, s, q] => do
+    let sb ← unhex s
+    let qb ← if q = "-" then some none else (unhex q).map some
+    pure (.new a sb qb)
+  | ["copy", a, b] => some (.copy a b)
+  | ["rc", a, b] => some (.rc a b)
+  | ["rci", a] => some (.rci a)
+  | ["sub", a, b, f, t, c] => do
+    let f ← f.toInt?
+    let t ← t.toInt?
+    pure (.sub a b f t (c == "1"))
+  | ["set", a, p, v] => do
+    let p ← p.toNat?
+    let v ← v.toNat?
+    pure (.set a p (UInt8.ofNat v))
+  | ["recycle", a] => some (.recycle a)
+  | ["mapset", a, key, k, v] => do
+    let v ← v.toInt?
+    pure (.mapset a key k v)
+  | ["setqual", a, q] => do
+    let q ← unhex q
+    pure (.setqual a q)
+  | ["setfeat", a, f, g] => do
+    let f ← unhex f
+    let g ← g.toNat?
+    pure (.setfeat a f g)
+  | ["scratch", n, v] => do
+    let n ← n.toNat?
+    let v ← v.toNat?
+    pure (.scratch n (UInt8.ofNat v))
+  | _ => none
+
+def insName (n : String) : List String → List String
+  | [] => [n]
+  | x :: xs => if n == x then x :: xs else if n < x then n :: x :: xs else x :: insName n xs
+
+open ObiVerif.SeqHeap in
+def showViews (names : List String) (view : String → Option OV) : String :=
+  joinSp ((names.foldr insName []).filterMap fun n =>
+    (view n).map fun o => s!"{n}={hex o.seq}/{hex o.qual}/{hex o.feat}/{showAnn o.ann}")
+
+open ObiVerif.SeqHeap in
+/-- the heap model is run under three pool policies (most recent item; a pseudo-random item; never
+reuse) and the value semantics `vrun`; all four must print the same thing (a theorem for the frame
+part, executed here for the effect on the target) -/
+def runHeap (ops : List String) : String :=
+  match ops.mapM parseHOp with
+  | none => "bad-op"
+  | some hops =>
+    let names := hops.filterMap HOp.target
+    let out : Except HErr Heap → String := fun r => match r with
+      | .ok h => showViews names h.view
+      | .error .panic => "panic"
+      | .error .badOp => "bad-op"
+    let a := out (SeqHeap.run Heap.empty (fun _ _ => 0) 0 hops)
+    let b := out (SeqHeap.run Heap.empty (fun i j => (i * 7 + j * 3) % 5) 0 hops)
+    let c := out (SeqHeap.run Heap.empty (fun _ j => if j ≥ 8 then 0 else 1000000) 0 hops)
+    let v : String := match vrun (fun _ => none) hops with
+      | .ok v => showViews names v
+      | .error .panic => "panic"
+      | .error .badOp => "bad-op"
+    if a == b && b == c && c == v then a else s!"MODEL-DIVERGES lifo[{a}] rnd[{b}] fresh[{c}] value[{v}]"
+
 def run (line : String) : String :=
   match words line with
+  | "heap" :: ops => runHeap ops
+  | "mut" :: _ => "ok"
   | ["comp", b] => match b.toNat? with
     | some b => toString (nucComplement (UInt8.ofNat b)).toNat
     | none => "bad-op"
